@@ -122,115 +122,117 @@ def worker(job):
     part = Partial()
     wd = scratch('c13')
     try:
-        cases = []   # (kind, text, raw bytes)
-        for i in range(n):
-            t = gen_tx(rng)
-            raw = rtx.ser_tx(t)
-            if ref_parse(raw) is None:
-                continue      # e.g. zero inputs with outputs: not expressible unambiguously
-            h = raw.hex()
-            cases.append(('valid', h if rng.random() < 0.8 else spaced(rng, h), raw))
-            if len(raw) > 5000:
-                continue
-            # truncations: all of them for small transactions, a sample otherwise
-            cuts = range(len(raw)) if len(raw) < 400 and i % 6 == 0 else sorted(set(rng.randrange(len(raw)) for _ in range(12)) | {len(raw) - 1, len(raw) - 4, 4, 5, 6})
-            for c in cuts:
-                if 0 <= c < len(raw):
-                    cases.append(('truncation', raw[:c].hex(), raw[:c]))
-            # trailing bytes
-            extra = rb(rng, rng.choice([1, 1, 4, 40]))
-            cases.append(('trailing-bytes', (raw + extra).hex(), raw + extra))
-            # flag byte corruptions (only meaningful for the extended format)
-            if raw[4] == 0:
-                for fb in (0, 2, 3, 0x80, 0xff):
-                    m = raw[:5] + bytes([fb]) + raw[6:]
-                    cases.append(('flag-byte', m.hex(), m))
-            else:
-                m = raw[:4] + b'\x00\x01' + raw[4:]
-                cases.append(('flag-byte/marker-without-witness', m.hex(), m))
-                m = raw[:4] + b'\x00\x00' + raw[4:]
-                cases.append(('flag-byte/zero-flag', m.hex(), m))
-            # non-canonical compact size for the input count / a script length
-            pos = 6 if raw[4] == 0 else 4
-            cnt = raw[pos]
-            if cnt < 253:
-                for enc in (b'\xfd' + struct.pack('<H', cnt), b'\xfe' + struct.pack('<I', cnt), b'\xff' + struct.pack('<Q', cnt)):
-                    m = raw[:pos] + enc + raw[pos + 1:]
-                    cases.append(('non-canonical-size', m.hex(), m))
-                # count beyond the remaining bytes
-                for big in (b'\xfd\xff\xff', b'\xfe\xff\xff\xff\x01', b'\xff' + b'\xff' * 8, bytes([min(252, cnt + 1)])):
-                    m = raw[:pos] + big + raw[pos + 1:]
-                    cases.append(('oversized-count', m.hex(), m))
-            # EVERY length / count field of the transaction, one at a time, in each longer-than-necessary encoding (all fields whose
-            # value sits at an encoding boundary - 252, 253, 65535, 65536 - and a sample of the others)
-            vals = []
-            orig_cs = rtx.ser_cs
-
-            def rec(v):
-                vals.append(v)
-                return orig_cs(v)
-            rtx.ser_cs = rec
-            try:
-                rtx.ser_tx(t)
-            finally:
-                rtx.ser_cs = orig_cs
-            pick = [k for k, v in enumerate(vals) if v in (252, 253, 0xffff, 0x10000)] + [rng.randrange(len(vals)) for _ in range(3)]
-            for k in sorted(set(pick)):
-                v = vals[k]
-                forms = []
-                if v < 253:
-                    forms.append(b'\xfd' + struct.pack('<H', v))
-                if v <= 0xffff:
-                    forms.append(b'\xfe' + struct.pack('<I', v))
-                forms.append(b'\xff' + struct.pack('<Q', v))
-                for form in forms[:2]:
-                    cnt = [0]
-
-                    def sub(x, k=k, form=form, cnt=cnt):
-                        i = cnt[0]
-                        cnt[0] += 1
-                        return form if i == k else orig_cs(x)
-                    rtx.ser_cs = sub
-                    try:
-                        m = rtx.ser_tx(t)
-                    finally:
-                        rtx.ser_cs = orig_cs
-                    if len(m) < 200000:
-                        cases.append(('non-canonical-size/field-value-%s' % (v if v in (252, 253, 0xffff, 0x10000) else 'other'), m.hex(), m))
-            # random single-byte corruption (may or may not stay well-formed: the oracle decides)
-            j = rng.randrange(len(raw))
-            m = raw[:j] + bytes([raw[j] ^ (1 << rng.randrange(8))]) + raw[j + 1:]
-            cases.append(('byte-flip', m.hex(), m))
-        # non-hex input
-        for bad in ['zz', '0', 'abc', '0x0100', '01 0', 'g0', '']:
-            cases.append(('not-hex', bad, None))
-        cmds = ['N t']
-        for kind, text, raw in cases:
-            cmds.append('PTX ' + (text.encode().hex() or '-'))
-        events, crashes, hangs = run_harness_cases(bindir, [('t', cmds)], wd)
-        for cr in crashes:
-            part.violation('crash:' + cr.key, dict(log=cr.log[-1500:]))
-        # split the event stream per PTX command: each ends with TXOK or TXFAIL
-        groups = []
-        cur = []
-        for l in events.get('t', []):
-            cur.append(l)
-            if l.startswith('TXOK ') or l.startswith('TXFAIL'):
-                groups.append(cur)
-                cur = []
-        if len(groups) != len(cases) and not crashes:
-            part.inconc('event-count-mismatch')
-        for (kind, text, raw), g in zip(cases, groups):
-            if raw is None:
-                part.evaluations += 1
-                if any(l.startswith('TXOK') for l in g) and text.strip() != '':
-                    part.violation('accepts-non-hex', dict(text=text))
-                elif text.strip() == '' and any(l.startswith('TXOK') for l in g):
-                    part.violation('accepts-empty-input', dict(text=text))
+        # (in chunks: the cases of 15,000 transactions held at once are gigabytes per worker)
+        for chunk_start in range(0, n, 400):
+            cases = []   # (kind, text, raw bytes)
+            for i in range(chunk_start, min(n, chunk_start + 400)):
+                t = gen_tx(rng)
+                raw = rtx.ser_tx(t)
+                if ref_parse(raw) is None:
+                    continue      # e.g. zero inputs with outputs: not expressible unambiguously
+                h = raw.hex()
+                cases.append(('valid', h if rng.random() < 0.8 else spaced(rng, h), raw))
+                if len(raw) > 5000:
+                    continue
+                # truncations: all of them for small transactions, a sample otherwise
+                cuts = range(len(raw)) if len(raw) < 400 and i % 6 == 0 else sorted(set(rng.randrange(len(raw)) for _ in range(12)) | {len(raw) - 1, len(raw) - 4, 4, 5, 6})
+                for c in cuts:
+                    if 0 <= c < len(raw):
+                        cases.append(('truncation', raw[:c].hex(), raw[:c]))
+                # trailing bytes
+                extra = rb(rng, rng.choice([1, 1, 4, 40]))
+                cases.append(('trailing-bytes', (raw + extra).hex(), raw + extra))
+                # flag byte corruptions (only meaningful for the extended format)
+                if raw[4] == 0:
+                    for fb in (0, 2, 3, 0x80, 0xff):
+                        m = raw[:5] + bytes([fb]) + raw[6:]
+                        cases.append(('flag-byte', m.hex(), m))
                 else:
-                    part.nontrivial.add(nt_hash('nonhex', text))
-                continue
-            judge_parse(text, raw, g, part, kind)
+                    m = raw[:4] + b'\x00\x01' + raw[4:]
+                    cases.append(('flag-byte/marker-without-witness', m.hex(), m))
+                    m = raw[:4] + b'\x00\x00' + raw[4:]
+                    cases.append(('flag-byte/zero-flag', m.hex(), m))
+                # non-canonical compact size for the input count / a script length
+                pos = 6 if raw[4] == 0 else 4
+                cnt = raw[pos]
+                if cnt < 253:
+                    for enc in (b'\xfd' + struct.pack('<H', cnt), b'\xfe' + struct.pack('<I', cnt), b'\xff' + struct.pack('<Q', cnt)):
+                        m = raw[:pos] + enc + raw[pos + 1:]
+                        cases.append(('non-canonical-size', m.hex(), m))
+                    # count beyond the remaining bytes
+                    for big in (b'\xfd\xff\xff', b'\xfe\xff\xff\xff\x01', b'\xff' + b'\xff' * 8, bytes([min(252, cnt + 1)])):
+                        m = raw[:pos] + big + raw[pos + 1:]
+                        cases.append(('oversized-count', m.hex(), m))
+                # EVERY length / count field of the transaction, one at a time, in each longer-than-necessary encoding (all fields whose
+                # value sits at an encoding boundary - 252, 253, 65535, 65536 - and a sample of the others)
+                vals = []
+                orig_cs = rtx.ser_cs
+
+                def rec(v):
+                    vals.append(v)
+                    return orig_cs(v)
+                rtx.ser_cs = rec
+                try:
+                    rtx.ser_tx(t)
+                finally:
+                    rtx.ser_cs = orig_cs
+                pick = [k for k, v in enumerate(vals) if v in (252, 253, 0xffff, 0x10000)] + [rng.randrange(len(vals)) for _ in range(3)]
+                for k in sorted(set(pick)):
+                    v = vals[k]
+                    forms = []
+                    if v < 253:
+                        forms.append(b'\xfd' + struct.pack('<H', v))
+                    if v <= 0xffff:
+                        forms.append(b'\xfe' + struct.pack('<I', v))
+                    forms.append(b'\xff' + struct.pack('<Q', v))
+                    for form in forms[:2]:
+                        cnt = [0]
+
+                        def sub(x, k=k, form=form, cnt=cnt):
+                            i = cnt[0]
+                            cnt[0] += 1
+                            return form if i == k else orig_cs(x)
+                        rtx.ser_cs = sub
+                        try:
+                            m = rtx.ser_tx(t)
+                        finally:
+                            rtx.ser_cs = orig_cs
+                        if len(m) < 200000:
+                            cases.append(('non-canonical-size/field-value-%s' % (v if v in (252, 253, 0xffff, 0x10000) else 'other'), m.hex(), m))
+                # random single-byte corruption (may or may not stay well-formed: the oracle decides)
+                j = rng.randrange(len(raw))
+                m = raw[:j] + bytes([raw[j] ^ (1 << rng.randrange(8))]) + raw[j + 1:]
+                cases.append(('byte-flip', m.hex(), m))
+            # non-hex input
+            for bad in (['zz', '0', 'abc', '0x0100', '01 0', 'g0', ''] if chunk_start == 0 else []):
+                cases.append(('not-hex', bad, None))
+            cmds = ['N t']
+            for kind, text, raw in cases:
+                cmds.append('PTX ' + (text.encode().hex() or '-'))
+            events, crashes, hangs = run_harness_cases(bindir, [('t', cmds)], wd)
+            for cr in crashes:
+                part.violation('crash:' + cr.key, dict(log=cr.log[-1500:]))
+            # split the event stream per PTX command: each ends with TXOK or TXFAIL
+            groups = []
+            cur = []
+            for l in events.get('t', []):
+                cur.append(l)
+                if l.startswith('TXOK ') or l.startswith('TXFAIL'):
+                    groups.append(cur)
+                    cur = []
+            if len(groups) != len(cases) and not crashes:
+                part.inconc('event-count-mismatch')
+            for (kind, text, raw), g in zip(cases, groups):
+                if raw is None:
+                    part.evaluations += 1
+                    if any(l.startswith('TXOK') for l in g) and text.strip() != '':
+                        part.violation('accepts-non-hex', dict(text=text))
+                    elif text.strip() == '' and any(l.startswith('TXOK') for l in g):
+                        part.violation('accepts-empty-input', dict(text=text))
+                    else:
+                        part.nontrivial.add(nt_hash('nonhex', text))
+                    continue
+                judge_parse(text, raw, g, part, kind)
     finally:
         cleanup_scratch(wd)
     return part.dump()
